@@ -88,6 +88,7 @@ int harness_main(void) {
   fmc_focus((void*)&cs_var, sizeof cs_var);
   int nf = 0;
   fiber_t* f[4];
+  rt_pin_begin();
   fmc_begin();
   int gen = fmc_param("gen", 0);
   if (gen) {
@@ -103,7 +104,8 @@ int harness_main(void) {
   }
   int order[8];
   rt_creation_order(nf, order);
-  for (int i = 0; i < nf; i++) f[order[i]] = fiber_create(STK, body, (void*)(intptr_t)order[i]);
+  for (int i = 0; i < nf; i++) f[order[i]] = rt_create(order[i], STK, body, (void*)(intptr_t)order[i]);
+  rt_pin_end();
   fmc_yield();
   for (int i = 0; i < nf; i++) {
     void* r = 0;
